@@ -18,6 +18,13 @@ pub enum Node {
     Item(Item),
     /// chain: (condition, arm) ... ; optional else arm
     If { arms: Vec<(E, Vec<Node>)>, else_arm: Option<Vec<Node>> },
+    /// v2: `#include "once<id>.asm"`, a file that says `#once` and emits one marker byte: contributes at its first
+    /// occurrence in the selected world only
+    Once(u8),
+}
+
+pub fn once_file(id: u8) -> (String, String) {
+    (format!("once{}.asm", id), format!("#once\n#d8 0x{:02x}\n", 0xd0 + id as u32))
 }
 
 pub fn render_nodes(nodes: &[Node], indent: usize, out: &mut String) {
@@ -58,6 +65,7 @@ pub fn render_nodes_split(nodes: &[Node], indent: usize, out: &mut String, split
                 out.push_str(&item_text(it));
                 out.push('\n');
             }
+            Node::Once(id) => out.push_str(&format!("{}#include \"{}\"\n", pad, once_file(*id).0)),
             Node::If { arms, else_arm } => {
                 for (k, (c, body)) in arms.iter().enumerate() {
                     out.push_str(&format!("{}{} {}\n{}{{\n", pad, if k == 0 { "#if" } else { "#elif" }, print(c, false), pad));
@@ -214,10 +222,19 @@ pub fn select_world(nodes: &[Node], defines: &[(String, DefVal)]) -> World {
     if nodes.iter().any(|n| matches!(n, Node::If { .. })) {
         return World::Reject("a condition cannot be decided from constants alone".into());
     }
+    let mut once_seen: Vec<u8> = Vec::new();
     let mut items: Vec<Item> = nodes
         .into_iter()
-        .map(|n| match n {
-            Node::Item(i) => i,
+        .filter_map(|n| match n {
+            Node::Item(i) => Some(i),
+            Node::Once(id) => {
+                if once_seen.contains(&id) {
+                    None
+                } else {
+                    once_seen.push(id);
+                    Some(Item::Data { width: Some(8), elems: vec![lit_of(0xd0 + id as u64)] })
+                }
+            }
             _ => unreachable!(),
         })
         .collect();
@@ -461,6 +478,31 @@ pub fn gen_cond(t: &mut Tape) -> (Vec<Node>, Vec<(String, DefVal)>) {
         }
     }
     nodes.extend(body(t, &mut g, 4, if dispatch { 3 } else { 6 }));
+    // v2: a #once file included from inside an arm of a top-level chain and again at the top level (before or after)
+    if crate::engine::gen_version() >= 2 && t.chance(1, 6) {
+        let ifs: Vec<usize> = nodes.iter().enumerate().filter(|(_, n)| matches!(n, Node::If { .. })).map(|(i, _)| i).collect();
+        if !ifs.is_empty() {
+            let at = ifs[t.below(ifs.len())];
+            if let Node::If { arms, else_arm } = &mut nodes[at] {
+                let k = t.below(arms.len() + 1);
+                let body = if k < arms.len() { Some(&mut arms[k].1) } else { else_arm.as_mut() };
+                if let Some(b) = body {
+                    if t.flip() {
+                        b.insert(0, Node::Once(0));
+                    } else {
+                        b.push(Node::Once(0));
+                    }
+                }
+            }
+            match t.draw(3) {
+                0 => nodes.insert(0, Node::Once(0)),
+                1 => nodes.push(Node::Once(0)),
+                _ => {
+                    nodes.insert(at, Node::Once(0));
+                }
+            }
+        }
+    }
     nodes.extend(tail);
     // defines
     let mut defs = Vec::new();
@@ -581,7 +623,33 @@ impl Property for C16 {
         // v2: one case in five keeps the content of some arms in included files
         let mut split = if crate::engine::gen_version() >= 2 && t.chance(1, 5) { Some(IncSplit { files: vec![], choose: (0..8).map(|_| t.chance(1, 3)).collect(), next: 0 }) } else { None };
         render_nodes_split(&nodes, 0, &mut src, &mut split);
-        let inc_files: Vec<(String, String)> = split.map(|s| s.files).unwrap_or_default();
+        let mut inc_files: Vec<(String, String)> = split.map(|s| s.files).unwrap_or_default();
+        fn once_in_arm(nodes: &[Node], inside: bool) -> (bool, bool) {
+            // (any Once node, a Once node inside an arm)
+            let mut r = (false, false);
+            for n in nodes {
+                match n {
+                    Node::Once(_) => {
+                        r.0 = true;
+                        r.1 |= inside;
+                    }
+                    Node::If { arms, else_arm } => {
+                        for a in arms.iter().map(|a| &a.1).chain(else_arm.iter()) {
+                            let x = once_in_arm(a, true);
+                            r.0 |= x.0;
+                            r.1 |= x.1;
+                        }
+                    }
+                    _ => {}
+                }
+            }
+            r
+        }
+        let (has_once, once_inside_arm) = once_in_arm(&nodes, false);
+        if has_once {
+            inc_files.push(once_file(0));
+            ctx.label(if once_inside_arm { "once-file-included-in-an-arm-and-at-top-level" } else { "once-file-at-top-level-only" });
+        }
         if !inc_files.is_empty() {
             ctx.label("arm-content-in-included-file");
         }
@@ -629,7 +697,14 @@ impl Property for C16 {
             sut::assemble(&mut fs, &["main.asm"], &Opts { defines: defs.clone(), ..Opts::default() })
         };
         ctx.evals += 1;
-        if let Some((c, d)) = crate::props::c01::compare(&model, &out) {
+        // a #once file included from inside an arm: whether it was included before is not known until the conditions
+        // are decided; an implementation may refuse the combination with a diagnostic that says so, but never
+        // mis-assemble it
+        let refused = once_inside_arm && matches!(&out, AsmOutcome::Err(m) if sut::first_error_text(m).contains("#once"));
+        if refused {
+            ctx.label("once-in-arm:refused-with-diagnostic");
+        }
+        if let Some((c, d)) = if refused { None } else { crate::props::c01::compare(&model, &out) } {
             ctx.want_render = true;
             ctx.render(render);
             return Verdict::fail(format!("library|{}", c), d);
